@@ -32,7 +32,7 @@ var profiles = map[string]Profile{
 	// C09: rollback / LoadVersionForOverwriting heavy
 	"C09": {Name: "C09", MinOps: 15, MaxOps: 60, Keys: 8, EmptyVals: true, ObsEvery: 5, ToggleFast: true,
 		Initials: []int64{-1, -1, 1, 7},
-		W:        map[string]int{"set": 35, "rm": 14, "save": 16, "rollback": 8, "reopen": 4, "prune": 4, "lvfo": 9, "load": 2, "staleidx": 3}},
+		W:        map[string]int{"set": 35, "rm": 14, "save": 16, "rollback": 8, "reopen": 4, "prune": 4, "lvfo": 9, "load": 2, "staleidx": 3, "dvfrom": 4}},
 	// C04: pruning heavy, commits without writes, single-leaf roots
 	"C04": {Name: "C04", MinOps: 15, MaxOps: 60, Keys: 6, EmptyVals: true, ObsEvery: 4,
 		Initials: []int64{-1, -1, 1, 7},
@@ -45,7 +45,7 @@ var profiles = map[string]Profile{
 	// C07: the fast index against the tree walk, each reopen chooses index on/off
 	"C07": {Name: "C07", MinOps: 15, MaxOps: 60, Keys: 8, EmptyVals: true, ObsEvery: 3, ToggleFast: true,
 		Initials: []int64{-1, -1, 1, 7},
-		W:        map[string]int{"set": 35, "rm": 16, "save": 14, "rollback": 5, "reopen": 10, "load": 5, "prune": 3, "lvfo": 4, "read": 10, "reopenat": 3, "staleidx": 3, "failedopen": 3, "dvfrom": 3}},
+		W:        map[string]int{"set": 35, "rm": 16, "save": 14, "rollback": 5, "reopen": 10, "load": 5, "prune": 3, "lvfo": 4, "read": 10, "reopenat": 3, "staleidx": 3, "failedopen": 3, "dvfrom": 8}},
 	// C03: ICS-23 proofs for every key of every kind of tree
 	"C03": {Name: "C03", MinOps: 6, MaxOps: 40, Keys: 7, EmptyVals: false, ObsEvery: 0,
 		Initials: []int64{-1, -1, 1, 7, 1 << 40},
